@@ -4,14 +4,20 @@
 
     IO open <mode> s<hex content>          (no reply compared; content = file before the open)
     IO write s<hex>            => <res>
-    IO read <fmt>…             => <res>     fmt = n<count> | l | a
+    IO read <fmt>…             => <res>     fmt = n<count> | l | a | N ("*n") | S<hex> (any other format string)
     IO lines | iter | flush | close        => <res>
     IO seek set|cur|end <int>  => <res>
     IO setvbuf no|full|line <size>         => <res>
     IO reopen <mode>                       (after close)
     IO disk                    => s<hex>    bytes on disk right now
+    -- the io library level (default files, io.lines, io.type):
+    IO ioinput | iooutput                  => <res>    io.input(f) / io.output(f), f = the current handle
+    IO ioinputname | iooutputname | iolinesname => T   io.input(path) / io.output(path) / io.lines(path)   (after close)
+    IO ioread <fmt>… | iowrite s<hex> | ioflush | ioclose | iolines      => <res>
+    IO ioiter auto|keep        => <res>     a call of the iterator of io.lines(path) (auto) / io.lines() (keep)
+    IO iotype | tostr          => s<hex>
 
-    <res> = T | fail | raise | none | i<offset> | (nil | s<hex>)+
+    <res> = T | fail | raise | none | i<offset> | (nil | s<hex> | d<bits of the float64>)+
 -/
 import GLua.Engines.Common
 import GLua.Model.IoFile
@@ -21,11 +27,12 @@ namespace GLua.Eng.IoEng
 open GLua GLua.Eng GLua.FileSpec
 
 structure St where
-  m : IoFile.LFile := {}
-  s : Stream := {}
+  m : IoFile.World := {}
+  s : WStream := {}
   opened : Bool := false
   specOn : Bool := true      -- false once the history left the discipline (Spec no longer applies)
   pending : Bool := false    -- an input operation since the last seek/flush (ISO C discipline)
+  kfTrunc : Bool := false    -- io.output(name) met a non-empty file: the next disk snapshot shows finding C19-io-output-no-truncate
 
 def hexVal (c : UInt8) : UInt8 :=
   if c ≥ 48 && c ≤ 57 then c - 48 else if c ≥ 97 && c ≤ 102 then c - 87
@@ -44,32 +51,118 @@ def hexDigit (n : UInt8) : Char := if n < 10 then Char.ofNat (48 + n.toNat) else
 def hexEncode (l : Bytes) : String :=
   l.foldl (fun (s : String) (c : UInt8) => (s.push (hexDigit (c >>> (4 : UInt8)))).push (hexDigit (c &&& (15 : UInt8)))) ""
 
-def showRes : Res → String
+/-- a value in the implementation's reply -/
+inductive IVal where
+  | nil
+  | str (b : Bytes)
+  | num (bits : Nat)      -- a float64, by its bit pattern
+deriving DecidableEq, Repr, Inhabited
+
+/-- the implementation's reply -/
+inductive IRes where
+  | ok | fail | raise | nothing
+  | pos (n : Nat)
+  | vals (l : List IVal)
+deriving DecidableEq, Repr, Inhabited
+
+/-- `numTok`: in a result of the Model / the Spec this value is a number, given by its numeral -/
+def showRes (numAt : Nat → Bool) : Res → String
   | .ok => "T"
   | .fail => "fail"
   | .raise => "raise"
   | .nothing => "none"
   | .pos n => "i" ++ toString n
-  | .vals l => " ".intercalate (l.map fun
-      | none => "nil"
-      | some b => "s" ++ hexEncode b)
+  | .vals [] => "none"
+  | .vals l => " ".intercalate ((List.range l.length).zip l |>.map fun
+      | (_, none) => "nil"
+      | (i, some b) => (if numAt i then "number:" else "s") ++ hexEncode b)
 
 def parseBytes (t : String) : Option Bytes :=
   if t.front = 's' then some (hexDecode (t.drop 1).toString) else none
 
-def parseRes (ws : List String) : Option Res :=
+def parseIVal (t : String) : Option IVal :=
+  if t = "nil" then some .nil
+  else if t.front = 's' then some (.str (hexDecode (t.drop 1).toString))
+  else if t.front = 'd' then (t.drop 1).toString.toNat?.map IVal.num
+  else none
+
+def parseImpl (ws : List String) : Option IRes :=
   match ws with
   | ["T"] => some .ok
   | ["fail"] => some .fail
   | ["raise"] => some .raise
   | ["none"] => some .nothing
-  | _ =>
-    match ws with
-    | [t] =>
-      if t.front = 'i' then (t.drop 1).toString.toNat?.map Res.pos
-      else if t = "nil" then some (.vals [none])
-      else (parseBytes t).map fun b => .vals [some b]
-    | _ => (ws.mapM fun t => if t = "nil" then some none else (parseBytes t).map some).map Res.vals
+  | [t] => if t.front = 'i' then (t.drop 1).toString.toNat?.map IRes.pos else (parseIVal t).map fun v => .vals [v]
+  | _ => (ws.mapM parseIVal).map IRes.vals
+
+/-! ### does a float64 equal the correctly rounded value of a numeral?  (exact integer arithmetic) -/
+
+/-- is the double with significand `M`, exponent `E` (value `M·2^E`; `boundary`: `M = 2^52` and not in the lowest
+    binade, so that the gap below is half the gap above) the round-to-nearest-even image of `n/d`? -/
+def isNearest (n d : Nat) (M : Nat) (E : Int) (boundary : Bool) : Bool :=
+  let posE := E.toNat
+  let negE := (-E).toNat
+  let lhs := n * 4 * 2 ^ negE
+  let unit := d * 2 ^ posE
+  let hi := unit * (4 * M + 2)
+  let up := decide (lhs < hi) || (decide (lhs = hi) && M % 2 == 0)
+  let lo := unit * (if boundary then 4 * M - 1 else 4 * M - 2)
+  let down := M == 0 || decide (lo < lhs) || (decide (lhs = lo) && M % 2 == 0)
+  up && down
+
+/-- the float64 `bits` is the nearest double to `(-1)^neg · n/d` -/
+def bitsDenote (neg : Bool) (n d : Nat) (bits : Nat) : Bool :=
+  let sign := bits / 2 ^ 63 == 1
+  let e : Nat := (bits / 2 ^ 52) % 2048
+  let m : Nat := bits % 2 ^ 52
+  if e == 2047 then false
+  else
+    (sign == neg) &&
+    (if e == 0 then isNearest n d m (-1074) false
+     else isNearest n d (m + 2 ^ 52) ((e : Int) - 1075) (m == 0 && e > 1))
+
+/-- the value the Model's token denotes (what `strconv.ParseFloat` must return), checked against the bits -/
+def tokDenotes (tok : Bytes) (bits : Nat) : Bool :=
+  let e := (bits / 2 ^ 52) % 2048
+  let m := bits % 2 ^ 52
+  let l := tok.map IoFile.lowerByte
+  if l = [110, 97, 110] then e == 2047 && m != 0
+  else if IoFile.isSpecialTok tok then e == 2047 && m == 0 && ((bits / 2 ^ 63 == 1) == (tok.head? == some 45))
+  else if (IoFile.indexP tok).isSome && !(tok.any fun c => c = 120 ∨ c = 88) then true     -- 1.5p3: math.Ldexp, not checked
+  else
+    match IoFile.readFloat tok with
+    | none => false
+    | some (lit, _) =>
+      let b : Nat := if lit.hex then 2 else 10
+      if lit.exp ≥ 0 then bitsDenote lit.neg (lit.mant * b ^ lit.exp.toNat) 1 bits
+      else bitsDenote lit.neg lit.mant (b ^ (-lit.exp).toNat) bits
+
+/-- the value a numeral of the Spec denotes, checked against the bits -/
+def specDenotes (tok : Bytes) (bits : Nat) : Bool :=
+  let v := numValue tok
+  -- zero, or so small that it rounds to zero (mant < 10^|tok|, the smallest subnormal is 4.9e-324): ±0, no big powers
+  if v.mant = 0 ∨ v.e10 < -(2000 : Int) - tok.length then bits % 2 ^ 63 == 0 && ((bits / 2 ^ 63 == 1) == v.neg)
+  else if v.e10 > 400 then false
+  else if v.e10 ≥ 0 then bitsDenote v.neg (v.mant * 10 ^ v.e10.toNat) 1 bits
+  else bitsDenote v.neg v.mant (10 ^ (-v.e10).toNat) bits
+
+/-- does the implementation's reply agree with a result of the Model / Spec?  `numAt i`: the i-th value is a number. -/
+def agree (den : Bytes → Nat → Bool) (numAt : Nat → Bool) (r : Res) (i : IRes) : Bool :=
+  match r, i with
+  | .ok, .ok => true
+  | .fail, .fail => true
+  | .raise, .raise => true
+  | .nothing, .nothing => true
+  | .vals [], .nothing => true
+  | .pos n, .pos k => n == k
+  | .vals l, .vals k =>
+    l.length == k.length &&
+    ((List.range l.length).zip (l.zip k)).all fun
+      | (_, none, .nil) => true
+      | (j, some b, .str c) => !numAt j && b == c
+      | (j, some b, .num bits) => numAt j && den b bits
+      | _ => false
+  | _, _ => false
 
 def parseMode : String → Option Mode
   | "r" | "rb" => some .r
@@ -81,7 +174,8 @@ def parseMode : String → Option Mode
   | _ => none
 
 def parseFmt (t : String) : Option Fmt :=
-  if t = "l" then some .line else if t = "a" then some .all
+  if t = "l" then some .line else if t = "a" then some .all else if t = "N" then some .num
+  else if t.front = 'S' then some (.str (hexDecode (t.drop 1).toString))
   else if t.front = 'n' then (t.drop 1).toString.toNat?.map Fmt.count else none
 
 def parseOp (ws : List String) : Option Op :=
@@ -101,6 +195,24 @@ def parseOp (ws : List String) : Option Op :=
   | ["reopen", m] => (parseMode m).map Op.reopen
   | _ => none
 
+def parseWOp (ws : List String) : Option WOp :=
+  match ws with
+  | ["ioinput"] => some .ioInput
+  | ["iooutput"] => some .ioOutput
+  | ["ioinputname"] => some .ioInputName
+  | ["iooutputname"] => some .ioOutputName
+  | ["iolinesname"] => some .ioLinesName
+  | "ioread" :: fs => (fs.mapM parseFmt).map WOp.ioRead
+  | ["iowrite", t] => (parseBytes t).map WOp.ioWrite
+  | ["ioflush"] => some .ioFlush
+  | ["ioclose"] => some .ioClose
+  | ["iolines"] => some .ioLines
+  | ["ioiter", "auto"] => some (.ioIter true)
+  | ["ioiter", "keep"] => some (.ioIter false)
+  | ["iotype"] => some .ioType
+  | ["tostr"] => some .toStr
+  | _ => (parseOp ws).map WOp.h
+
 /-- `*l` as the unchanged tree (and the tree after fixes/C19-1…4) delivers it: a CR directly before the LF is
     dropped together with the LF.  Used only to recognise the open finding C19-readline-strips-cr. -/
 def stripCR (b : Bytes) (cur : Nat) (v : Option Bytes) : Option Bytes :=
@@ -111,17 +223,64 @@ def stripCR (b : Bytes) (cur : Nat) (v : Option Bytes) : Option Bytes :=
 def readFmtsCR (b : Bytes) (cur : Nat) : List Fmt → List (Option Bytes)
   | [] => []
   | f :: fs =>
-    match readFmt b cur f with
-    | (none, _) => [none]
-    | (some v, c) => (if f = .line then stripCR b cur (some v) else some v) :: readFmtsCR b c fs
+    match classify f with
+    | .is g =>
+      match readFmt b cur g with
+      | (none, _) => [none]
+      | (some v, c) => (if g = .line then stripCR b cur (some v) else some v) :: readFmtsCR b c fs
+    | _ => []
 
 /-- the Spec's answer with the CR-stripping variation (same cursor movement). -/
 def specResCR (s : Stream) (op : Op) : Option Res :=
   if s.closed then none else
   match op with
-  | .read fs => if s.canRead then some (.vals (readFmtsCR s.bytes s.cur (if fs = [] then [.line] else fs))) else none
+  | .read fs =>
+    let fs' := if fs = [] then [.line] else fs
+    if s.canRead ∧ (readFmts s.bytes s.cur fs').2.2 = false then some (.vals (readFmtsCR s.bytes s.cur fs')) else none
   | .iter => if s.canRead then some (.vals (readFmtsCR s.bytes s.cur [.line])) else none
   | _ => none
+
+/-- which values of a read are numbers: one value per option, in order -/
+def numKinds (fs : List Fmt) : Nat → Bool :=
+  let ex := (if fs = [] then [Fmt.line] else fs).flatMap IoFile.expandFmt
+  fun i => ex[i]? = some Fmt.num
+def numKindsSpec (fs : List Fmt) : Nat → Bool :=
+  let ex := (if fs = [] then [Fmt.line] else fs)
+  fun i => (ex[i]?.map classify) = some (.is .num)
+
+/-- the first `*n` of a read, as the Spec walks the formats, that meets a text of the given kind:
+    the formats before it delivered values (how many), the class of the text. -/
+def firstNumHit (b : Bytes) (cur : Nat) (n : Nat) (p : NumClass → Bool) : List Fmt → Option Nat
+  | [] => none
+  | f :: fs =>
+    match classify f with
+    | .is g =>
+      if g = .num ∧ p (numClass (b.drop cur)) then some n
+      else
+        match readFmt b cur g with
+        | (none, _) => none
+        | (some _, c) => firstNumHit b c (n + 1) p fs
+    | _ => none
+
+def hasLF (ws : Bytes) : Bool := ws.contains 10
+
+/-- known deviations of `read` (the Model reproduces the reply `r`; the Spec's answer is `sr`) -/
+def readKF (s : Stream) (fs : List Fmt) (r : IRes) (sr : Res) : Option String :=
+  let fs' := if fs = [] then [Fmt.line] else fs
+  -- the Spec raised because of the lone star (whatever the implementation went on to do with the later formats)
+  if sr = .raise ∧ fs'.find? (fun f => classify f == .invalid) = some (.str [42]) then
+    some "KF:C19-read-lone-star the format \"*\" reads nothing and returns nothing instead of raising"
+  else if r = .fail then
+    if (firstNumHit s.bytes s.cur 0 (fun | .value ws _ => hasLF ws | .eof ws => hasLF ws | .nomatch ws => hasLF ws | _ => false) fs').isSome then
+      some "KF:C19-readnum-rejects-newline `*n` fails with \"unexpected newline\" when a line feed is among the white space before the numeral"
+    else if (firstNumHit s.bytes s.cur 0 (fun | .value _ tok => (hexNumeral tok).isSome | _ => false) fs').isSome then
+      some "KF:C19-readnum-rejects-hex `*n` does not read a hexadecimal integer (0x10)"
+    else
+      match firstNumHit s.bytes s.cur 0 (fun | .nomatch _ => true | _ => false) fs' with
+      | some 0 => none
+      | some _ => some "KF:C19-read-failure-drops-results a `*n` that finds no numeral makes read return nil,msg,1 without the values read by the earlier formats"
+      | none => none
+  else none
 
 def handle (st : St) (ws : List String) : St × Verdict :=
   let (args, impl) := splitArrow ws
@@ -129,7 +288,7 @@ def handle (st : St) (ws : List String) : St × Verdict :=
   | ["open", mode, content] =>
     match parseMode mode, parseBytes content with
     | some m, some b =>
-      ({ m := IoFile.ioOpenFile b m, s := openStream b m, opened := true, specOn := true, pending := false }, ok)
+      ({ m := { f := IoFile.ioOpenFile b m }, s := { s := openStream b m }, opened := true, specOn := true, pending := false }, ok)
     | _, _ => (st, { model := some "bad-op" })
   | ["disk"] =>
     if !st.opened then (st, { model := some "not-open" }) else
@@ -138,39 +297,85 @@ def handle (st : St) (ws : List String) : St × Verdict :=
       match parseBytes t with
       | none => (st, { model := some "bad-reply" })
       | some b =>
-        let mv := if b = st.m.disk then none else some ("s" ++ hexEncode st.m.disk)
+        let mv := if b = st.m.f.disk then none else some ("s" ++ hexEncode st.m.f.disk)
         -- "visible after flush/close": compared with the Spec only when no write is still buffered
-        let pend : Bool := match st.m.writer with | .buffered _ p => !p.isEmpty | _ => false
-        let sv := if !st.specOn || pend || b == st.s.bytes then none
-                  else some ("disk differs from the byte sequence of the Spec (spec length " ++ toString st.s.bytes.length ++
-                             ", disk length " ++ toString b.length ++ ")")
-        (st, { model := mv, spec := sv })
+        let pend : Bool := match st.m.f.writer with | .buffered _ p => !p.isEmpty | _ => false
+        if !st.specOn || pend || b == st.s.s.bytes then ({ st with kfTrunc := false }, { model := mv })
+        else if st.kfTrunc ∧ mv.isNone then
+          -- recorded finding; the Spec goes on from the file as it is
+          ({ st with kfTrunc := false, s := { st.s with s := { st.s.s with bytes := b } } },
+           { model := mv, spec := some "KF:C19-io-output-no-truncate io.output(name) does not truncate an existing file (liolib opens it in mode \"w\")" })
+        else
+          (st, { model := mv, spec := some ("disk differs from the byte sequence of the Spec (spec length " ++ toString st.s.s.bytes.length ++
+                             ", disk length " ++ toString b.length ++ ")") })
     | _ => (st, { model := some "bad-reply" })
+  | ["iotypeother"] =>
+    -- io.type(x) for four values that are not file handles: nil each time (Lua 5.1 manual: "nil if obj is not a file handle")
+    (st, { model := if impl = ["4"] then none else some "4", spec := if impl = ["4"] then none else some "io.type of a non-file is not nil" })
+  | ["defin"] | ["defout"] =>
+    -- which handle io.input() / io.output() returns: the slot of the Model and of the Spec
+    let showSlot : Slot → String := fun | .std => "std" | .cur => "cur" | .stale => "stale"
+    let isIn := args = ["defin"]
+    let ms := showSlot (if isIn then st.m.defIn else st.m.defOut)
+    let ss := showSlot (if isIn then st.s.defIn else st.s.defOut)
+    (st, { model := if impl = [ms] then none else some ms,
+           spec := if !st.specOn || impl = [ss] then none else some ("default file: spec=" ++ ss) })
   | _ =>
     if !st.opened then (st, { model := some "not-open" }) else
-    match parseOp args, parseRes impl with
-    | some op, some r =>
+    match parseWOp args, parseImpl impl with
+    | some wop, some r =>
+      if !slotOk st.s wop then (st, { model := some "default-slot-is-std" }) else
+      let eop := effOp st.s wop
       -- discipline bookkeeping (Spec.disc): a write directly after an input operation leaves the property's domain
-      let breaks := (match op with | .write _ => st.pending | _ => false)
+      let breaks := (match eop with | some (.write _) => st.pending | _ => false)
       let specOn := st.specOn && !breaks
-      let pending := match op with
-        | .write _ => false
-        | _ => if isInput op then true else if isSeparator op then false else st.pending
-      let reopenBad := (match op with | .reopen _ => !st.m.closed | _ => false)
+      let pending := match eop with
+        | some (.write _) => false
+        | some op => if isInput op then true else if isSeparator op then false else st.pending
+        | none => st.pending
+      let reopenBad := (match eop with | some (.reopen _) => !st.m.f.closed | _ => false)
       if reopenBad then (st, { model := some "reopen-before-close" }) else
-      let (m', mr) := IoFile.step IoFile.R0 st.m op
-      let sop := op
-      let (s', sr) := FileSpec.step st.s sop
-      let mv := if mr = r then none else some (showRes mr)
+      let (m', mr) := IoFile.wstep IoFile.R0 st.m wop
+      let (s', sr) := FileSpec.wstep st.s wop
+      -- which values are numbers
+      let rfs : Option (List Fmt) := match eop with | some (.read fs) => some fs | _ => none
+      let mk : Nat → Bool := match rfs with | some fs => numKinds fs | none => fun _ => false
+      let sk : Nat → Bool := match rfs with | some fs => numKindsSpec fs | none => fun _ => false
+      let mv := if agree tokDenotes mk mr r then none else some (showRes mk mr)
+      -- is the meaning of the call fixed by the Spec?
+      let specified : Bool := match rfs with
+        | some fs => st.s.s.closed || !st.s.s.canRead || readSpecified st.s.s.bytes st.s.s.cur (if fs = [] then [.line] else fs)
+        | none => true
+      -- an unspecified read: the Spec continues from where the implementation (= the Model) left the cursor
+      let s' : WStream := if specified then s' else { s' with s := { s'.s with cur := IoFile.cursor m'.f } }
+      let kfTrunc := st.kfTrunc || (wop = .ioOutputName && !st.s.s.bytes.isEmpty)
+      let isLines : Bool := match eop with | some .lines => true | _ => false
       let sv : Option String :=
-        if !specOn then none
-        else if sr = r then none
+        if !specOn || !specified then none
+        else if agree specDenotes sk sr r then none
         -- not fixed by the property: what `lines` returns on a handle that cannot be read (iterating it raises either way)
-        else if op = .lines ∧ !st.s.canRead ∧ !st.s.closed then none
-        else if mv.isNone ∧ specResCR st.s sop = some r then
-          some ("KF:C19-readline-strips-cr line read drops the CR before LF; spec=" ++ showRes sr)
-        else some ("op " ++ " ".intercalate (args.take 1) ++ " spec=" ++ showRes sr)
-      ({ st with m := m', s := s', specOn := specOn, pending := pending }, { model := mv, spec := sv })
+        else if isLines ∧ !st.s.s.canRead ∧ !st.s.s.closed then none
+        -- `*n` that finds no numeral, first format: nil (Spec) / nil, message, 1 (implementation): both "nil on failure"
+        else if r == .fail && (match sr with | .vals [none] => true | _ => false) &&
+                (match rfs with | some fs => (firstNumHit st.s.s.bytes st.s.s.cur 0 (fun | .nomatch ws => !hasLF ws | _ => false) fs) == some 0 | none => false) then
+          -- … but the cursor must stay in front of the byte that is not a numeral; by the Model (which the implementation
+          -- has matched on every observation) an exponent letter and the sign/digits after it are consumed
+          if mv.isNone ∧ IoFile.cursor m'.f ≠ s'.s.cur then
+            some ("KF:C19-readnum-consumes-exponent-letter a failing `*n` consumes a leading e/E/p/P and the sign and digits after it; cursor " ++
+                  toString (IoFile.cursor m'.f) ++ ", spec cursor " ++ toString s'.s.cur)
+          else none
+        else if mv.isNone ∧ (eop.bind (specResCR st.s.s)).map (fun x => agree specDenotes sk x r) = some true then
+          some ("KF:C19-readline-strips-cr line read drops the CR before LF; spec=" ++ showRes sk sr)
+        else if mv.isNone ∧ (rfs.bind fun fs => readKF st.s.s fs r sr).isSome then
+          (rfs.bind fun fs => readKF st.s.s fs r sr).map fun t => t ++ "; spec=" ++ showRes sk sr
+        else if mv.isNone ∧ sr = .raise ∧ r = .ok ∧ (wop = .ioInput ∨ wop = .ioOutput ∨ wop = .ioLines) then
+          some "KF:C19-default-file-closed-no-raise io.input(f) / io.output(f) / io.lines() accept a closed handle without raising"
+        else some ("op " ++ " ".intercalate (args.take 1) ++ " spec=" ++ showRes sk sr)
+      -- after a recorded deviation of a read the Spec also continues from the implementation's cursor
+      let s' : WStream := if sv.isSome ∧ mv.isNone ∧ rfs.isSome then { s' with s := { s'.s with cur := IoFile.cursor m'.f } } else s'
+      -- … and (recorded deviation "a closed handle is accepted as default file") with the implementation's default slots
+      let s' : WStream := { s' with defIn := m'.defIn, defOut := m'.defOut }
+      ({ st with m := m', s := s', specOn := specOn, pending := pending, kfTrunc := kfTrunc }, { model := mv, spec := sv })
     | _, _ => (st, { model := some "bad-op" })
 
 end GLua.Eng.IoEng
